@@ -451,6 +451,13 @@ func (db *DB) insertOrUpdate(s *Schema, o Object, commit bool) (err error) {
 	} else {
 		// writing the object to disk
 		if err = db.writeObjectData(o, data); err != nil {
+			// index and cache must not advertise values which are not on disk.
+			// The object is un-indexed: Control then reports the mismatch with
+			// the previous version (if any) still on disk and Repair fixes it
+			s.unindex(o)
+			if s.mustCache() {
+				db.cache.delete(o)
+			}
 			return
 		}
 
